@@ -135,9 +135,7 @@ def rule_inv(ctx):
     ntrans = 0
 
     def env_events(sock, st):
-        ev = []
-        if sock == "none":
-            ev.append("onConnectLayerEvent")
+        ev = ["onConnectLayerEvent"]      # a connect request may come at any time (another thread, an impatient application)
         if sock == "connecting":
             ev += ["onConnected", "onConnectionError", "onDisconnectLayerEvent"]
         if sock == "up":
